@@ -14,7 +14,7 @@ AccBad(r) ==
       Bad(src) ==
         LET x == r.res[src] IN
         IF x.panic THEN TRUE
-        ELSE IF ~ok THEN FALSE
+        ELSE IF ~ok \/ "skip" \in DOMAIN x THEN FALSE
         ELSE IF "absent" \in DOMAIN x THEN lk.ok
         ELSE IF ~lk.ok THEN TRUE
         ELSE IF src = "olv_container_len" THEN
